@@ -172,7 +172,29 @@ def target_hmc_block(adapt):
     ]
 
 
+def target_hmc_bounded(adapt):
+    """HMC on a positive parameter sampled without a transform: a trajectory that crosses zero raises
+    inside the operator, which then draws a new momentum and tries again"""
+    return [
+        {"id": "joint", "type": "JointDistributionModel", "distributions": [
+            {"id": "dx", "type": "Distribution", "distribution": "torch.distributions.Gamma",
+             "x": P("x", [0.6, 1.1]), "parameters": {"concentration": [1.0, 3.0], "rate": 2.0}},
+        ]},
+        {"id": "mcmc", "type": "MCMC", "joint": "joint", "iterations": 3, "every": 0,
+         "checkpoint_frequency": 1000000,
+         "operators": [
+             # the first coordinate has density 2 exp(-2x): with momentum 0 the first half step already
+             # carries it across zero, with momentum +e_1 it does not
+             {"id": "op.hmc", "type": "HMCOperator", "joint": "joint", "parameters": ["x"],
+              "integrator": {"id": "leapfrog", "type": "LeapfrogIntegrator", "steps": 1, "step_size": 1.0},
+              "mass_matrix": P("mass", [1.0, 1.0]), "adaptors": [], "disable_adaptation": not adapt},
+         ],
+         "loggers": [{"id": "logger", "type": "Logger", "parameters": ["joint", "x"], "every": 1}]},
+    ]
+
+
 TARGETS = {
+    "hmc_bounded": lambda adapt: target_hmc_bounded(adapt),
     "hmc_block": lambda adapt: target_hmc_block(adapt),
     "hmc_toy_diag": lambda adapt: target_hmc_toy(adapt, False),
     "hmc_toy_dense": lambda adapt: target_hmc_toy(adapt, True),
@@ -697,7 +719,9 @@ def run(run):
     items = []
     for tname in TARGETS:
         for adapt in (True, False):
-            if tname in ("toy", "hky", "toy_bounded", "hmc_block"):
+            if tname == "hmc_bounded":  # every failed trial adds a draw: many more points per execution
+                bound, horizon = (1, 2) if quick else (2, 2)
+            elif tname in ("toy", "hky", "toy_bounded", "hmc_block"):
                 bound, horizon = (2, 3) if quick else (3, 4)
             elif tname.startswith("hmc_toy"):
                 bound, horizon = (1, 7) if quick else (2, 11)
